@@ -57,13 +57,26 @@ pub fn suite_qualmap(ctx: &Ctx, thorough: bool) {
     let mut queue: VecDeque<Vec<(String, String)>> = VecDeque::new();
     seen.insert(vec![]);
     queue.push_back(vec![]);
+    // SCALE: large contents (many keys, long keys, long values) go through the same operation block; their successors are
+    // not explored further, and the probing keys are taken from the content itself (first, middle, last, case variant, absent ones)
+    for n in thresholds(thorough) {
+        if n > 1100 || n < 9 { continue; }
+        queue.push_back((0..n).map(|i| (format!("k{i:05}"), format!("v{i}"))).collect());
+        queue.push_back((0..9).map(|i| (format!("{}{i}", inflate("a", n)), inflate("V", n))).collect());
+        queue.push_back((0..n).map(|i| (format!("{}{i:05}", ["a-", "a.", "a_", "a0", "aa"][i % 5]), String::from("w"))).collect::<BTreeMap<_, _>>().into_iter().collect());
+    }
     let build = |c: &[(String, String)]| -> Qualifiers { Qualifiers::try_from_iter(c.iter().map(|(k, v)| (k.as_str(), v.as_str()))).expect("reachable content is constructible") };
     let mut states = 0u64;
     while let Some(c) = queue.pop_front() {
         states += 1;
         ctx.nontrivial();
         let m0 = model_of(&c);
-        let mut push = |q: &Qualifiers| { let n = content(q); if seen.insert(n.clone()) { queue.push_back(n); } };
+        let big = c.len() > 8;
+        let mut push = |q: &Qualifiers| { if big { return; } let n = content(q); if seen.insert(n.clone()) { queue.push_back(n); } };
+        let probe: Vec<String> = if big {
+            let mid = &c[c.len() / 2].0;
+            vec![c[0].0.clone(), mid.clone(), c[c.len() - 1].0.clone(), mid.to_ascii_uppercase(), "a".into(), format!("{mid}x"), "zzz".into(), "".into(), format!("{mid}!")]
+        } else { keys.iter().map(|k| k.to_string()).collect() };
         // construction agrees with the model, regardless of order and key case
         {
             let q = build(&c);
@@ -75,7 +88,8 @@ pub fn suite_qualmap(ctx: &Ctx, thorough: bool) {
                 ctx.violate("C11.eq", "same content => equal, hash and order alike regardless of insertion order and key case", json!(format!("{c:?}")), format!("{:?}", content(&q2)), format!("{c:?}"));
             }
         }
-        for k in &keys {
+        for k0 in &probe {
+            let k: &&str = &k0.as_str();
             let lk = k.to_ascii_lowercase();
             // lookups
             {
@@ -249,6 +263,37 @@ pub fn suite_builder(ctx: &Ctx, thorough: bool) {
         while idx >= block { idx -= block; l += 1; block = n.pow(l as u32); }
         let mut seq = vec![];
         for _ in 0..l { seq.push(ops[idx % n].clone()); idx /= n; }
+        builder_one(ctx, seq);
+    });
+    // SCALE: the same oracle on single calls (and pairs with a second field) whose argument is grown across the size thresholds
+    let mut big: Vec<&'static str> = vec![];
+    for n in thresholds(thorough) {
+        if n > 4200 { continue; }
+        for u in ["a", "B.", "é", "/x", "%", " "] {
+            let b = inflate(u, n);
+            big.push(Box::leak(format!("{b}Z").into_boxed_str()));
+            big.push(Box::leak(format!("Z{b}").into_boxed_str()));
+            big.push(Box::leak(b.into_boxed_str()));
+        }
+    }
+    par_for(big.len(), &|i| {
+        let s = big[i];
+        for op in [Op::Ns(s), Op::Name(s), Op::Ver(s), Op::Sub(s), Op::Q("k", s), Op::Q(s, "v"), Op::Ty(s)] {
+            builder_one(ctx, vec![op.clone()]);
+            builder_one(ctx, vec![op.clone(), Op::Q("checksum", "SHA1:AB")]);
+            builder_one(ctx, vec![Op::Ns("x/y"), op.clone(), Op::Sub("s/t")]);
+            builder_one(ctx, vec![op.clone(), op.clone()]);
+        }
+    });
+    // commutation of calls on different fields, override of same field
+    let a = GenericPurlBuilder::new("t".to_owned(), "n").with_version("1").with_namespace("x").with_subpath("s").build().unwrap();
+    let b = GenericPurlBuilder::new("t".to_owned(), "n").with_subpath("s").with_namespace("y").with_namespace("x").with_version("1").build().unwrap();
+    if a != b { ctx.violate("C09.commute", "calls on different fields commute; later calls override", json!("version/namespace/subpath"), format!("{:?}", Obs::of(&b)), format!("{:?}", Obs::of(&a))); }
+    ctx.sample(json!("[Ns(\"x/y\"), Q(\"K\", \"a&b=c\")]"));
+}
+
+fn builder_one(ctx: &Ctx, seq: Vec<Op>) {
+    {
         ctx.eval();
         let mut m = BModel { ty: "t0".into(), name: "n0".into(), ..Default::default() };
         let mut b = Some(GenericPurlBuilder::new("t0".to_owned(), "n0"));
@@ -340,12 +385,7 @@ pub fn suite_builder(ctx: &Ctx, thorough: bool) {
                 }
             }
         }
-    });
-    // commutation of calls on different fields, override of same field
-    let a = GenericPurlBuilder::new("t".to_owned(), "n").with_version("1").with_namespace("x").with_subpath("s").build().unwrap();
-    let b = GenericPurlBuilder::new("t".to_owned(), "n").with_subpath("s").with_namespace("y").with_namespace("x").with_version("1").build().unwrap();
-    if a != b { ctx.violate("C09.commute", "calls on different fields commute; later calls override", json!("version/namespace/subpath"), format!("{:?}", Obs::of(&b)), format!("{:?}", Obs::of(&a))); }
-    ctx.sample(json!("[Ns(\"x/y\"), Q(\"K\", \"a&b=c\")]"));
+    }
 }
 
 // ---- C12: checksum ----
@@ -359,10 +399,41 @@ pub fn suite_checksum(ctx: &Ctx, thorough: bool) {
     par_for(total, &|mut idx| {
         let mut l = 0; let mut block = 1;
         while idx >= block { idx -= block; l += 1; block = n.pow(l as u32); }
-        let mut seq = vec![];
+        let mut seq: Vec<(&'static str, &'static [u8])> = vec![];
         for _ in 0..l { let e = idx % n; idx /= n; seq.push((algs[e / bytes.len()], bytes[e % bytes.len()])); }
+        checksum_one(ctx, seq);
+    });
+    // SCALE: many algorithms (inserted ascending, descending, interleaved, with a case variant replacing one), long names, long values
+    let mut big: Vec<Vec<(&'static str, &'static [u8])>> = vec![];
+    let leak_s = |s: String| -> &'static str { Box::leak(s.into_boxed_str()) };
+    let leak_b = |b: Vec<u8>| -> &'static [u8] { Box::leak(b.into_boxed_slice()) };
+    for n in thresholds(thorough) {
+        if n > 1100 { continue; }
+        let names: Vec<&'static str> = (0..n).map(|i| leak_s(format!("Alg-{i:05}"))).collect();
+        let vals: Vec<&'static [u8]> = (0..n).map(|i| leak_b(vec![(i % 251) as u8; i % 4])).collect();
+        let asc: Vec<_> = (0..n).map(|i| (names[i], vals[i])).collect();
+        let mut desc = asc.clone(); desc.reverse();
+        let mut inter: Vec<_> = (0..n).map(|i| asc[(i * 7 + 3) % n]).collect();
+        inter.push((leak_s(names[n / 2].to_uppercase()), leak_b(vec![0xEE; 3])));
+        big.push(asc); big.push(desc); big.push(inter);
+        // one long name, one long value
+        big.push(vec![(leak_s(inflate("Xy", n)), leak_b(vec![0xAB; 2])), ("a", leak_b((0..n).map(|i| (i * 37 % 256) as u8).collect()))]);
+        big.push(vec![(leak_s(format!("{}É", inflate("q", n))), leak_b(vec![1])), (leak_s(format!("{}é", inflate("Q", n))), leak_b(vec![2]))]);
+    }
+    par_for(big.len(), &|i| checksum_one(ctx, big[i].clone()));
+    // the empty checksum
+    ctx.eval();
+    match guarded(|| GenericPurl::<String>::builder("t".to_owned(), "n").try_with_typed_qualifier(Some(Checksum::default())).map(|b| b.build().map(|p| p.to_string()))) {
+        Ok(Ok(Ok(s))) if s == "pkg:t/n" => {},
+        other => ctx.violate("C06.empty-checksum", "an empty Checksum neither panics nor overflows", json!("Checksum::default()"), format!("{other:?}"), "Ok(\"pkg:t/n\")".into()),
+    }
+    ctx.sample(json!("[(\"A\", [171]), (\"a\", [1, 255]), (\"ǅ\", [])]"));
+}
+
+fn checksum_one(ctx: &Ctx, seq: Vec<(&'static str, &'static [u8])>) {
+    {
         ctx.eval();
-        let inp = || json!(format!("{seq:?}"));
+        let inp = || { let d = format!("{seq:?}"); if d.len() > 600 { json!(format!("{} entries: {}...", seq.len(), d.chars().take(600).collect::<String>())) } else { json!(d) } };
         let mut model: BTreeMap<String, Vec<u8>> = BTreeMap::new();
         let mut c = Checksum::default();
         let mut c_raw = Checksum::default();
@@ -423,14 +494,7 @@ pub fn suite_checksum(ctx: &Ctx, thorough: bool) {
         // remove
         let mut c2 = c.clone();
         if let Some((a, _)) = seq.first() { c2.remove(&refimpl::lower(a)); if c2.get_raw(&refimpl::lower(a)).is_some() { ctx.violate("C12.remove", "remove removes", inp(), "still present".into(), "absent".into()); } }
-    });
-    // the empty checksum
-    ctx.eval();
-    match guarded(|| GenericPurl::<String>::builder("t".to_owned(), "n").try_with_typed_qualifier(Some(Checksum::default())).map(|b| b.build().map(|p| p.to_string()))) {
-        Ok(Ok(Ok(s))) if s == "pkg:t/n" => {},
-        other => ctx.violate("C06.empty-checksum", "an empty Checksum neither panics nor overflows", json!("Checksum::default()"), format!("{other:?}"), "Ok(\"pkg:t/n\")".into()),
     }
-    ctx.sample(json!("[(\"A\", [171]), (\"a\", [1, 255]), (\"ǅ\", [])]"));
 }
 
 // ---- C14 / C04: user-supplied shapes ----
@@ -541,6 +605,13 @@ pub fn suite_protocol(ctx: &Ctx, thorough: bool) {
         let mut buf = String::from("pkg:Ty/");
         rec(&mut buf, n - 1, run_ref);
         for s in ["pkg:ty/n?k=v#s", "pkg:TY/a/b@1", "pkg:t%79/n", "pkg:/n", "pkg:ty", "http:x", "pkg:///Ty+1/n?checksum=a:00"] { run(s); }
+        // SCALE: long type substrings (valid, and invalid only at the far end), long components, many qualifiers
+        for n in [15usize, 16, 23, 24, 25, 64, 300, 1025] {
+            run(&format!("pkg:{}/n", inflate("Ty", n))); run(&format!("pkg:{}%79/n", inflate("Ty", n))); run(&format!("pkg:{}!/n", inflate("ty", n)));
+            run(&format!("pkg:ty/{}/n@{}", inflate("a", n), inflate("1.", n))); run(&format!("pkg:Ty/n?{}=v#{}", inflate("K", n), inflate("s/", n)));
+            let qs: Vec<String> = (0..n).map(|i| format!("k{i}={}", if i % 3 == 0 { "" } else { "v" })).collect();
+            run(&format!("pkg:Ty/n?{}", qs.join("&")));
+        }
         // builder entry point: hook exactly once per build()
         CFG.with(|c| c.set((2, hook))); CONV.with(|c| c.set(0)); FIN.with(|c| c.set(0));
         ctx.eval();
@@ -583,10 +654,14 @@ pub fn suite_nopanic(ctx: &Ctx, thorough: bool, seed: u64) {
 
 /// C13: builder inputs through all four built-in string shapes
 pub fn suite_shapes(ctx: &Ctx, thorough: bool) {
-    let types = ["t", "T", "Ab.C+d-1", "", "a b", "é", "t%20", "_", "9"];
-    let strs = ["", "a", "A/b", "é@?#", "%2F"];
-    let _ = thorough;
-    for ty in types { for ns in strs { for name in strs { for ver in strs {
+    let mut types_v: Vec<String> = ["t", "T", "Ab.C+d-1", "", "a b", "é", "t%20", "_", "9"].iter().map(|s| s.to_string()).collect();
+    let mut strs_v: Vec<String> = ["", "a", "A/b", "é@?#", "%2F"].iter().map(|s| s.to_string()).collect();
+    // SCALE: long types (upper-case letter far from the start / at the end) and long field values
+    for n in [23usize, 24, 25, 64, 300, if thorough { 70000 } else { 1025 }] {
+        types_v.push(inflate("aB", n)); types_v.push(format!("{}Z", inflate("a", n))); types_v.push(format!("{}!", inflate("a", n)));
+    }
+    strs_v.push(inflate("aB/", 24)); strs_v.push(inflate("é", 300));
+    for ty in &types_v { let ty = ty.as_str(); for ns in &strs_v { let ns = ns.as_str(); for name in &strs_v { let name = name.as_str(); for ver in &strs_v { let ver = ver.as_str();
         ctx.eval();
         let mk = |o: Result<Obs, String>, s: Option<String>| (o, s);
         macro_rules! run { ($t:expr) => {{
@@ -605,6 +680,7 @@ pub fn suite_shapes(ctx: &Ctx, thorough: bool) {
             if *x != a { ctx.violate("C13.builder", "same acceptance / error / type / accessors / string for every built-in type parameter", json!({"type": ty, "namespace": ns, "name": name, "version": ver, "shape": n}), format!("{x:?}"), format!("{a:?}")); }
         }
     } } } }
+    let _ = thorough;
     ctx.sample(json!({"type": "Ab.C+d-1", "shapes": ["String", "Cow::Borrowed", "Cow::Owned", "SmallString"]}));
     let _ = (PackageError::UnsupportedType, PurlField::Name);
 }
